@@ -90,6 +90,12 @@ func newSink() *hookSink {
 	return s
 }
 
+func (s *hookSink) addRule(r *steerRule) {
+	s.mu.Lock()
+	s.rules = append(append([]*steerRule(nil), s.rules...), r)
+	s.mu.Unlock()
+}
+
 func (s *hookSink) retire() { atomic.StoreInt32(&s.dead, 1) }
 
 func (s *hookSink) total() int64 {
